@@ -14,16 +14,25 @@ TIERS = {
     'thorough': dict(shards=16, cases=800, steps=16),
 }
 RULE = ('case = one tree (a quarter of them with typed members: value specs, defaults, '
-        'nested typed dicts / lists), a protected node P in it and a list of (target at or below '
+        'nested typed dicts / lists; functors with several arguments of which some are '
+        'bound, some at their default and some unbound, hyper values and DNA as ordinary '
+        'nodes), a protected node P in it and a list of (target at or below '
         'P, operation with arguments that are valid on an unprotected twin and change '
         'it) plus operations issued at a strict ancestor of P whose written locations '
         'lie at or below P (rebind / sym_rebind / pg.patch with deep paths, pure or '
         'mixed with writes outside P, rebind[fn], clone(override=...); in typed trees also '
         'rebind of a typed pg.Dict member to a plain dict that the spec has to complete); '
-        'each is executed '
+        'directed operations on functors at or below P (del f.arg, f.arg = v, rebind of '
+        'arguments to values / MISSING_VALUE, calls with call-time overrides with and '
+        'without override_args); a schemaless pg.List / pg.Dict at or below P handed to an '
+        'API that applies a value spec which changes it on the twin (use_value_spec, value '
+        'of a typed field by constructor / item assignment / rebind); each is executed '
         'under several protection configurations. A configuration = a program of flag '
         'operations on P (seal(), seal(False), P built with sealed=True, P replaced by '
-        'its clone; set_accessor_writable on the written containers) + a scope script: '
+        'its clone; seal / seal(False) at a descendant of P or a member below P replaced '
+        'by an unsealed copy of itself under as_sealed(False), always directly followed '
+        'by seal() / seal(False) at P; set_accessor_writable on the written containers) '
+        '+ a scope script: '
         'pg.as_sealed / pg.allow_writable_accessors scope objects with values '
         'True/False/None that are created inline, up front, at an earlier point of the '
         'script or inside another (temporary) scope, and entered / left (normally or by '
@@ -32,10 +41,17 @@ RULE = ('case = one tree (a quarter of them with typed members: value specs, def
         'after the scopes). Reference model: a stack per scope kind (push on enter, pop '
         'on exit); "innermost scope value, else object flag". The effective override '
         'is observed with probe values after every enter / exit, the flags of all '
-        'descendants after every flag operation. Non-trivial = at least 4 operations '
+        'descendants after every flag operation. "Exactly as it was" is judged on the '
+        'JSON form, the public state the node kinds keep outside their symbolic fields '
+        '(functor: specified / bound / default / non-default / unbound argument sets, '
+        'is_fully_bound, the result of calling it; DNA: userdata, to_numbers, spec; hyper '
+        'values: dna_spec(), candidate templates) and the sealed / accessor flags of '
+        'every node. Non-trivial = at least 4 operations '
         'were expected to be refused and 2 to be allowed; distinct by the (operation, '
         'configuration, verdict) sequence.')
 REQUIRED_COUNTERS = ['expected_refused', 'expected_allowed', 'refused_ok', 'allowed_ok',
+                     'functor_steps', 'op:Functor.__delattr__', 'expected_refused_adopt',
+                     'deep_seal_checks_after_descendant_flag_ops',
                      'deep_seal_checks', 'expected_refused_from_above',
                      'expected_allowed_from_above', 'scope_state_probes',
                      'stored_scopes_entered', 'flag_ops_inside_as_sealed_scope',
